@@ -210,7 +210,13 @@ Print Assumptions C17_ls_scale_covariant_Qinf.
    0 elsewhere, n = k + min(m, len response) + t.  If the response window of offset 0 is negative and
    fits (look_ahead <= m, which is k + look_ahead <= n; the property's "k + 18 <= n" covers every
    look-ahead 3..=12 of the wire grid), the sweep with offset 0 returns exactly a at k, 0 elsewhere and
-   residual 0 - from six arithmetic facts that hold in any ordered field for a > 0. *)
+   residual 0 - from six arithmetic facts that hold in any ordered field for a > 0.
+   SCOPE: exact arithmetic only.  Two of the facts are FALSE for IEEE binary64 - `div (mul a r) r = a` (two
+   roundings) and, with szero = -0.0 as in the float instance, `add szero (mul zero zero) = szero`
+   (-0 + 0*0 = +0) - so this theorem and the next have no binary64 instance and say nothing about the
+   floating-point routine; they are instantiated over Q below (C17_isolated_pulse_exact_Q).  For binary64 the
+   recovery (the property's "relative error below 1e-6") is MEASURED on the implementation by rel17pulse
+   (2e-16 relative; single-wire blocks at all 256 ring positions), not proved. *)
 Theorem C17_isolated_pulse_exact :
   forall (F : Type) (zero szero : F) (add sub mul div fmin : F -> F -> F) (neg nonneg : F -> bool)
          (a : F) (response : list F) (la : nat),
